@@ -6,7 +6,24 @@ use std::fmt;
 
 /// A container of a two-pair `Ccy` cross.
 #[derive(Copy, Clone, Debug, PartialEq, Eq, Hash, Serialize, Deserialize)]
+#[serde(try_from = "FXPairDataModel")]
 pub struct FXPair(pub(crate) Ccy, pub(crate) Ccy);
+
+#[derive(Deserialize)]
+struct FXPairDataModel(Ccy, Ccy);
+
+impl std::convert::TryFrom<FXPairDataModel> for FXPair {
+    type Error = String;
+
+    fn try_from(model: FXPairDataModel) -> Result<Self, Self::Error> {
+        if model.0 == model.1 {
+            return Err(
+                "`FXPair` must be created from two distinct currencies, not same.".to_string(),
+            );
+        }
+        Ok(FXPair(model.0, model.1))
+    }
+}
 
 impl FXPair {
     /// Constructs a new `FXPair`, as a combination of two distinct `Ccy`s.
